@@ -404,3 +404,32 @@ def name_form(stem, ext, n):
     name must all behave alike.  n selects the form."""
     forms = [stem + ext, stem + ext.upper(), stem, stem + ext + ".bak", "my " + stem + ext, stem + ".v2" + ext, stem + ".run1"]
     return forms[n % len(forms)]
+
+
+def alt_tmpdir(fn):
+    """decorator for job functions job=(n, ...): every other job runs with the process's temporary directory (TMPDIR, tempfile.tempdir)
+    on ANOTHER file system (tmpfs /dev/shm) than the scratch directory the files under test live in - the environment is not part of
+    any property's quantifier, so nothing may depend on it.  The harness's own scratch directories are created with an explicit dir=."""
+    import functools
+
+    @functools.wraps(fn)
+    def wrapper(job):
+        import tempfile
+        n = job[0] if isinstance(job, (tuple, list)) and isinstance(job[0], int) else 0
+        if n % 2 == 0 or not (os.path.isdir("/dev/shm") and os.access("/dev/shm", os.W_OK)):
+            return fn(job)
+        workdir()
+        d = tempfile.mkdtemp(prefix="verif_tmp_", dir="/dev/shm")
+        old_env, old_td = os.environ.get("TMPDIR"), tempfile.tempdir
+        os.environ["TMPDIR"] = d
+        tempfile.tempdir = d
+        try:
+            return fn(job)
+        finally:
+            tempfile.tempdir = old_td
+            if old_env is None:
+                os.environ.pop("TMPDIR", None)
+            else:
+                os.environ["TMPDIR"] = old_env
+            shutil.rmtree(d, ignore_errors=True)
+    return wrapper
